@@ -313,10 +313,34 @@ func CheckCase(c Case) *ev.Violation {
 					s = flip(s)
 				}
 				v = resolve(s, "texttable", "", false, false)
-			case "builtin", "name":
+			case "builtin", "name", "near":
 				var n string
 				if op.Subject == "builtin" {
 					n = gen.BuiltinDecos[op.Which%len(gen.BuiltinDecos)]
+				} else if op.Subject == "near" {
+					// a near miss of a name that does exist: whether it selects anything is decided by the documented rule
+					// below (it is known only if somebody registered exactly that), never by its likeness
+					n = gen.BuiltinDecos[op.Which%len(gen.BuiltinDecos)]
+					if len(actual) > 0 && op.Name%2 == 1 {
+						n = actual[op.Name%len(actual)]
+					}
+					switch (op.Name/2 + op.Which) % 6 {
+					case 0:
+						n = strings.ReplaceAll(n, "-", "_")
+					case 1:
+						n = strings.ReplaceAll(n, "_", "-")
+					case 2:
+						n = n[:len(n)-1]
+					case 3:
+						n = n + "-"
+					case 4:
+						n = strings.ReplaceAll(n, "-", "")
+					default:
+						n = strings.ReplaceAll(n, "-", " ")
+					}
+					if n == "" || strings.Contains(n, ".") {
+						continue
+					}
 				} else {
 					if len(actual) == 0 {
 						continue
